@@ -89,8 +89,20 @@ def main():
             jobs.append((ob, True))
     # longest first
     jobs.sort(key=lambda j: -(j[0]["timeout"] if not j[1] else 1))
+    gate_future = None
+    gate_pool = ThreadPoolExecutor(max_workers=1)
+    if getattr(P, "USES_SYMNP", False) and not a.only:
+        # model-conformance gate (DESIGN 2.3): the NumPy model must agree with real NumPy on the repo's own suites
+        def _gate():
+            rc, so, se = _run([PY, "-W", "ignore", "-m", "vt.conformance", "gate"], {}, 900)
+            try:
+                return json.loads(so[so.index("{"):])
+            except Exception:
+                return {"ok": False, "error": "gate rc=%s %s %s" % (rc, so[-500:], se[-500:])}
+        gate_future = gate_pool.submit(_gate)
     with ThreadPoolExecutor(max_workers=a.jobs) as ex:
         results = list(ex.map(lambda j: run_check(j[0], j[1], workdir), jobs))
+    gate = gate_future.result() if gate_future is not None else None
     main_r = {r["name"]: r for r in results if not r["is_twin"]}
     twin_r = {r["name"]: r for r in results if r["is_twin"]}
     byname = {o["name"]: o for o in obs}
@@ -154,6 +166,9 @@ def main():
                     violations.append({"name": n, "call": tw["call"], "message": "witness fails on the real implementation "
                                        "although the modelled run was confirmed", "replay": path,
                                        "real": rr.get("raised") or rr.get("returned")})
+
+    if gate is not None and not gate.get("ok"):
+        harness_errors.append({"name": "numpy-model conformance gate", "why": "vt.symnp disagrees with real NumPy", "detail": gate})
 
     # ---------------- known findings: concrete re-check
     from vt import kf
@@ -221,6 +236,7 @@ def main():
             "solver_queries": scalls, "solver_s": round(ssecs, 2),
             "per_obligation": per_ob, "extra_obligations": extra,
             "known_findings_reported": kf_lines,
+            "model_conformance_gate": ({k: gate.get(k) for k in ("ok", "cases", "agree", "outside_model", "n_disagree")} if gate else None),
             "violations": violations,
             "checker_cmd": "./check %s --tier %s" % (pid, a.tier),
         },
@@ -241,10 +257,10 @@ def main():
     for v in violations:
         print("  counterexample %s: %s -> %s" % (v["name"], v.get("call"), v.get("real") or v.get("message")))
         print("VIOLATION property=%s replay=%s" % (pid, v["replay"]))
+    for h in harness_errors: print("HARNESS-ERROR", json.dumps(h, default=str)[:1500])
     if violations:
         sys.exit(1)
     if harness_errors:
-        for h in harness_errors: print("HARNESS-ERROR", json.dumps(h, default=str)[:1500])
         sys.exit(3)
     sys.exit(0)
 
